@@ -1,6 +1,8 @@
 import CarModel.ReadOnly
 import CarModel.Proofs.StoreGet
 import CarModel.Proofs.ReadOnlyOpen
+import CarModel.Proofs.IndexWf
+import CarModel.Proofs.IndexSer
 /-
 C07 — Read-only random access agrees with a sequential scan of the same archive.
 -/
@@ -166,6 +168,135 @@ theorem opened_v1_indexOK (o : WOpts) (roots : Option (List Cid)) (log : List Bl
         · have := eq_of_beq hk; rw [this]
         · simp only [Bool.and_eq_true, beq_iff_eq] at hk; exact hk.2
 
+/-- (4b) The same for `storage.OpenReadable` over a CARv1 (in-memory insertion index built from the records). -/
+theorem opened_v1_storage_indexOK (o : WOpts) (roots : Option (List Cid)) (log : List Block) (r : ReadOnly)
+    (hopen : openReadOnly .storage o .auto (payload roots log) = .ok r)
+    (hwf : (CarHeader.mk roots 1).wf) (hmax : (encodeHeaderBody ⟨roots, 1⟩).length ≤ o.maxHeader)
+    (h63 : (encodeHeaderBody ⟨roots, 1⟩).length < 2 ^ 63) (hok : ∀ b ∈ log, b.idxOk (roIdxOpts o))
+    (hsz : (payload roots log).length < 2 ^ 63)
+    (hkept : ∀ b ∈ log, (o.storeIdentity || !b.cid.isIdentity) = true) :
+    r.payload = payload roots log ∧ r.api = .storage ∧ r.roots = (roots.getD []) ∧
+    IndexOK o r.idx.getAll (headerSize ⟨roots, 1⟩) log := by
+  unfold openReadOnly at hopen
+  simp only [payload] at hopen
+  rw [readHeader_encode o.maxHeader ⟨roots, 1⟩ _ hwf hmax h63] at hopen
+  simp only [↓reduceIte] at hopen
+  have hload := loadIndexRecords_v1 .seekable (roIdxOpts o) roots log hwf hmax h63 hok hsz
+  simp only [payload, roIdxOpts] at hload
+  rw [hload] at hopen
+  simp only [Except.map, Except.ok.injEq] at hopen
+  subst hopen
+  have hmem : ∀ rc, rc ∈ InsIndex.load [] (keptRecords (roIdxOpts o) (headerSize ⟨roots, 1⟩) log) ↔
+      rc ∈ keptRecords (roIdxOpts o) (headerSize ⟨roots, 1⟩) log := by
+    intro rc
+    have := (insIndex_load_perm (keptRecords (roIdxOpts o) (headerSize ⟨roots, 1⟩) log) []).mem_iff (a := rc)
+    simpa using this
+  refine ⟨by simp [payload], rfl, rfl, ?_, ?_⟩
+  · intro key off hoff
+    simp only [AnyIndex.getAll, InsIndex.getAll, List.mem_map, List.mem_filter] at hoff
+    obtain ⟨rc, ⟨hrc, _⟩, ho⟩ := hoff
+    obtain ⟨l1, b, l2, hl1, hr⟩ := mem_keptRecords _ _ _ _ ((hmem rc).mp hrc)
+    exact ⟨l1, b, l2, hl1, by rw [← ho, hr]⟩
+  · intro l1 b l2 key hlog hk
+    simp only [AnyIndex.getAll, InsIndex.getAll, List.mem_map, List.mem_filter]
+    refine ⟨⟨b.cid, headerSize ⟨roots, 1⟩ + (sectionsBytes l1).length⟩, ⟨(hmem _).mpr ?_, ?_⟩, rfl⟩
+    · rw [hlog]; exact keptRecords_complete _ l1 b l2 _ (hkept b (by rw [hlog]; simp))
+    · unfold Spec.sameKey at hk
+      split at hk
+      · have := eq_of_beq hk; rw [this]; simp
+      · simp only [Bool.and_eq_true, beq_iff_eq] at hk; simp [hk.2]
+/-- (4c) A finalised CARv2 with its EMBEDDED index, either API: if the index bytes are the serialisation of
+    `Load` of exactly the records of the stored sections (what Finalize writes: C05), the read-only store reads
+    the index back (C11 round trip), and it is sound and complete for the payload. -/
+theorem opened_v2_embedded_indexOK (api : Api) (o : WOpts) (dp ip : Nat) (roots : Option (List Cid)) (log : List Block)
+    (fi : Bool) (codec : Nat) (rs : List Record) (ix : Index) (r : ReadOnly)
+    (hix : Index.load codec rs = some ix) (hrec : RecordsOK rs)
+    (hrs : ∀ rc, rc ∈ rs ↔ rc ∈ keptRecords (roIdxOpts { o with storeIdentity := true }) (headerSize ⟨roots, 1⟩) log)
+    (hopen : openReadOnly api o .auto (layoutV2 dp ip (payload roots log) true fi ix.bytes) = .ok r)
+    (hwf : (CarHeader.mk roots 1).wf) (hmax : (encodeHeaderBody ⟨roots, 1⟩).length ≤ o.maxHeader)
+    (h63 : (encodeHeaderBody ⟨roots, 1⟩).length < 2 ^ 63) (h10 : 10 ≤ o.maxHeader)
+    (lok : LayoutOK dp ip (payload roots log).length) :
+    r.payload = payload roots log ∧ r.api = api ∧ r.roots = (roots.getD []) ∧
+    IndexOK o r.idx.getAll (headerSize ⟨roots, 1⟩) log := by
+  have hp := payload_length_pos roots log
+  have hfw := finalHeader_wf dp ip (payload roots log).length true fi hp lok
+  have hfile : layoutV2 dp ip (payload roots log) true fi ix.bytes
+      = pragma ++ ((finalHeader dp ip (payload roots log).length true fi).bytes ++
+          (zeros dp ++ (payload roots log ++ (zeros ip ++ ix.bytes)))) := by simp [layoutV2]
+  have hdrop11 : (layoutV2 dp ip (payload roots log) true fi ix.bytes).drop 11
+      = (finalHeader dp ip (payload roots log).length true fi).bytes ++
+          (zeros dp ++ (payload roots log ++ (zeros ip ++ ix.bytes))) := by
+    rw [hfile]; exact List.drop_left' (by decide)
+  have htake40 : ((layoutV2 dp ip (payload roots log) true fi ix.bytes).drop 11).take 40
+      = (finalHeader dp ip (payload roots log).length true fi).bytes ++ [] := by
+    rw [hdrop11, List.take_left' (V2Header.bytes_length _)]; simp
+  have hl1 : (pragma ++ ((finalHeader dp ip (payload roots log).length true fi).bytes ++ zeros dp)).length = 51 + dp := by
+    simp [V2Header.bytes_length, zeros_length, pragma, pragmaBody, keyVersion]; omega
+  have hdropd : (layoutV2 dp ip (payload roots log) true fi ix.bytes).drop (51 + dp)
+      = payload roots log ++ (zeros ip ++ ix.bytes) := by
+    rw [hfile]
+    have e : pragma ++ ((finalHeader dp ip (payload roots log).length true fi).bytes ++
+          (zeros dp ++ (payload roots log ++ (zeros ip ++ ix.bytes))))
+        = (pragma ++ ((finalHeader dp ip (payload roots log).length true fi).bytes ++ zeros dp))
+          ++ (payload roots log ++ (zeros ip ++ ix.bytes)) := by simp
+    rw [e, List.drop_left' hl1]
+  have hl2 : (pragma ++ ((finalHeader dp ip (payload roots log).length true fi).bytes ++
+      (zeros dp ++ (payload roots log ++ zeros ip)))).length = 51 + dp + (payload roots log).length + ip := by
+    simp [V2Header.bytes_length, zeros_length, pragma, pragmaBody, keyVersion]; omega
+  have hdropi : (layoutV2 dp ip (payload roots log) true fi ix.bytes).drop (51 + dp + (payload roots log).length + ip)
+      = ix.bytes ++ [] := by
+    rw [hfile]
+    have e : pragma ++ ((finalHeader dp ip (payload roots log).length true fi).bytes ++
+          (zeros dp ++ (payload roots log ++ (zeros ip ++ ix.bytes))))
+        = (pragma ++ ((finalHeader dp ip (payload roots log).length true fi).bytes ++
+            (zeros dp ++ (payload roots log ++ zeros ip)))) ++ ix.bytes := by simp
+    rw [e, List.drop_left' hl2]; simp
+  have hread := index_roundtrip ix (index_load_wf codec rs ix hix hrec) []
+  have r1 : readHeader o.maxHeader (layoutV2 dp ip (payload roots log) true fi ix.bytes)
+      = .ok (⟨none, 2⟩, (finalHeader dp ip (payload roots log).length true fi).bytes ++
+          (zeros dp ++ (payload roots log ++ (zeros ip ++ ix.bytes)))) := by
+    rw [hfile]; exact readHeader_pragma o.maxHeader _ h10
+  unfold openReadOnly at hopen
+  rw [r1] at hopen
+  simp only [show ¬ ((2 : Nat) = 1) by decide, ↓reduceIte] at hopen
+  have hrv : readV2Header ((finalHeader dp ip (payload roots log).length true fi).bytes ++ [])
+      = .ok (finalHeader dp ip (payload roots log).length true fi, []) := readV2Header_bytes _ hfw []
+  rw [htake40] at hopen
+  simp only [hrv] at hopen
+  have hoff : (finalHeader dp ip (payload roots log).length true fi).dataOffset = 51 + dp := by simp [finalHeader]
+  have hsz : (finalHeader dp ip (payload roots log).length true fi).dataSize = (payload roots log).length := by simp [finalHeader]
+  have hio : (finalHeader dp ip (payload roots log).length true fi).indexOffset
+      = 51 + dp + (payload roots log).length + ip := by simp [finalHeader]
+  have hhas : (finalHeader dp ip (payload roots log).length true fi).hasIndex = true := by
+    simp [V2Header.hasIndex, hio]
+  simp only [hoff, hsz, hio, hhas, ↓reduceIte] at hopen
+  rw [hdropd, List.take_left' rfl] at hopen
+  have hrh : readHeader o.maxHeader (payload roots log) = .ok (⟨roots, 1⟩, sectionsBytes log) := by
+    simp only [payload]; exact readHeader_encode o.maxHeader ⟨roots, 1⟩ _ hwf hmax h63
+  rw [hrh] at hopen
+  simp only at hopen
+  rw [hdropi, hread] at hopen
+  simp only [Except.map, Except.ok.injEq] at hopen
+  subst hopen
+  have hoffs : ∀ rc ∈ rs, rc.offset < 2 ^ 64 := hrec.off
+  refine ⟨by simp [payload], rfl, rfl, ?_, ?_⟩
+  · intro key off hoff
+    obtain ⟨rc, hrc, _, _, ho⟩ := (index_getAll_load codec rs ix hix hoffs key off).mp hoff
+    obtain ⟨l1, b, l2, hl1, hr⟩ := mem_keptRecords _ _ _ _ ((hrs rc).mp hrc)
+    exact ⟨l1, b, l2, hl1, by rw [← ho, hr]⟩
+  · intro l1 b l2 key hlog hk
+    refine (index_getAll_load codec rs ix hix hoffs key _).mpr
+      ⟨⟨b.cid, headerSize ⟨roots, 1⟩ + (sectionsBytes l1).length⟩, ?_, ?_, ?_, rfl⟩
+    · rw [hrs, hlog]; exact keptRecords_complete _ l1 b l2 _ (by simp [roIdxOpts])
+    · intro _
+      unfold Spec.sameKey at hk
+      split at hk
+      · have := eq_of_beq hk; rw [this]
+      · simp only [Bool.and_eq_true, beq_iff_eq] at hk; exact hk.1
+    · unfold Spec.sameKey at hk
+      split at hk
+      · have := eq_of_beq hk; rw [this]
+      · simp only [Bool.and_eq_true, beq_iff_eq] at hk; exact hk.2
 /-- (5) End to end, no index hypothesis: open any CARv1 the writers can emit (every block indexed:
     identity CIDs only under StoreIdentityCIDs) with `blockstore.OpenReadOnly` and either sorted
     codec; then Has says true exactly for the keys some section carries and Get returns the bytes of
